@@ -459,7 +459,7 @@ class C14(Spec):
     technique = 'stateless preemption-bounded exploration of thread interleavings on the real code (baton scheduler over hooked static-initialisation guards, every execution in a forked child), with a vector-clock happens-before race detector fed by compiler-inserted access hooks'
     level_text = ('2 real threads, every unordered pair of 22 const calls (12 of them touching lazily initialised statics: Identity, setIdentity, Zero, Generator, InnerWeights, adj, rjac, ljac, smallAdj, inner, isApprox): ALL schedules '
                   '(the preemption bound is iterated until a larger bound adds no schedule); 3 threads on the static-touching triples with <= 2 (thorough 4) preemptions; thorough: 2-call programs per thread and 4 threads on Identity. '
-                  'Every execution runs in a fresh forked process (first use is real); oracle: no happens-before-unordered conflicting access, no deadlock, per-thread results bitwise equal to the single-thread reference')
+                  'Every execution runs in a fresh forked process (first use is real); oracle: no happens-before-unordered conflicting access, no deadlock, per-thread results bitwise equal to the single-thread reference. Companion (not deciding): the same thread bodies free-running under the real ThreadSanitizer runtime, every pair and 4-thread same-op programs, 2 (thorough 12) runs each in fresh processes')
     rule = ('states = thread programs explored; transitions = complete schedules executed; non-trivial = programs with >= 2 threads; outcomes = distinct orders of completed static initialisations')
     explanation = 'systematic concurrency testing (CHESS style) on the implementation; scheduling points = thread start/exit and __cxa_guard_acquire/release/abort; an acquire load of a guard byte that observes 1 is a happens-before edge, not a scheduling point (the byte goes 0->1 once)'
     assumptions = ['the C++11 guard protocol is modelled by our own implementation of __cxa_guard_*', 'clang -fsanitize=thread instruments every non-stack memory access of the harness and of the (header-only) library',
@@ -473,6 +473,10 @@ class C14(Spec):
                 name = '%s/%s' % (g, s)
                 us.append(Unit(name, 'checks/c14.cpp', defs=['VF_GROUP_TYPE=' + GROUPS[g].format(S=s), 'VF_UNIT="%s"' % name], build='ndebug', cxx='clang++',
                                flags=['-fsanitize=thread'], link=['sched'], shards=(8 if tier == 'thorough' else 4), two_step=True))
+                # companion pass: the same thread bodies free-running under the real ThreadSanitizer runtime (cross-check of our detector)
+                if s == 'double':
+                    us.append(Unit(name + '/tsan_free', 'engine/sched/free.cpp', extra_srcs=['checks/c14.cpp'], defs=['VF_GROUP_TYPE=' + GROUPS[g].format(S=s), 'VF_UNIT="%s/tsan_free"' % name],
+                                   build='ndebug', cxx='clang++', flags=['-fsanitize=thread'], link=[], shards=2))
         return us
 
 
